@@ -164,6 +164,25 @@ def write_json(config: kconfiglib.Kconfig, filename: str, write_deprecated: bool
         json.dump(config_dict, f, indent=4, sort_keys=True)
 
 
+def _active_range(sym: kconfiglib.Symbol) -> Optional[List]:
+    """The first range of 'sym' whose condition holds, as two numbers, or None."""
+    for min_range, max_range, cond_expr in sym.ranges:
+        if kconfiglib.expr_value(cond_expr):
+            # A bound without a numeric value counts as 0, like in Symbol.str_value
+            low_s, high_s = min_range.str_value, max_range.str_value
+            if sym.type == kconfiglib.FLOAT:
+                return [
+                    float(low_s) if kconfiglib.is_float(low_s) else 0.0,
+                    float(high_s) if kconfiglib.is_float(high_s) else 0.0,
+                ]
+            base = 16 if sym.type == kconfiglib.HEX else 10
+            return [
+                int(low_s, base) if kconfiglib._is_base_n(low_s, base) else 0,
+                int(high_s, base) if kconfiglib._is_base_n(high_s, base) else 0,
+            ]
+    return None
+
+
 def write_json_menus(config: kconfiglib.Kconfig, filename: str, write_deprecated: bool = True) -> None:
     """Write the full menu tree structure as a JSON file."""
     existing_ids: Set[str] = set()
@@ -200,33 +219,11 @@ def write_json_menus(config: kconfiglib.Kconfig, filename: str, write_deprecated
                 new_json["name"] = sym.name
                 new_json["help"] = node.help
                 new_json["is_menuconfig"] = is_menuconfig
-                greatest_range = None
-                if isinstance(sym, (kconfiglib.Symbol, kconfiglib.MenuNode)) and len(sym.ranges) > 0:
-                    for min_range, max_range, cond_expr in sym.ranges:
-                        if kconfiglib.expr_value(cond_expr):
-                            greatest_range = [min_range, max_range]
-                new_json["range"] = greatest_range
+                new_json["range"] = _active_range(sym)
 
         elif isinstance(node.item, kconfiglib.Symbol):
             sym = node.item
-            greatest_range = None
-            if len(sym.ranges) > 0:
-                for min_range, max_range, cond_expr in sym.ranges:
-                    if kconfiglib.expr_value(cond_expr):
-                        # A bound without a numeric value counts as 0, like in Symbol.str_value
-                        low_s, high_s = min_range.str_value, max_range.str_value
-                        if sym.type == kconfiglib.FLOAT:
-                            greatest_range = [
-                                float(low_s) if kconfiglib.is_float(low_s) else 0.0,
-                                float(high_s) if kconfiglib.is_float(high_s) else 0.0,
-                            ]
-                        else:
-                            base = 16 if sym.type == kconfiglib.HEX else 10
-                            greatest_range = [
-                                int(low_s, base) if kconfiglib._is_base_n(low_s, base) else 0,
-                                int(high_s, base) if kconfiglib._is_base_n(high_s, base) else 0,
-                            ]
-                        break
+            greatest_range = _active_range(sym)
 
             new_json = {
                 "type": kconfiglib.TYPE_TO_STR[sym.type],
